@@ -209,6 +209,12 @@ func runLLMNR(w *rt.World, res *hx.Result, realServer, realClient bool) *hx.Viol
 	clientCloseMode := hx.F(6)
 	strayMode := hx.F(4)
 	nResponders := 1 + hx.G(2)
+	v6 := hx.G(4) == 0 && realServer && !realClient // the IPv6 flavour of the server (FF02::1:3), raw clients only
+	group := groupAddr
+	if v6 {
+		group = &net.UDPAddr{IP: net.ParseIP("FF02::1:3"), Port: 5355}
+	}
+	timeoutKnob := hx.G(3) // real client: Timeout 2 s (default), 300 ms, 5 s
 
 	canaryRan := false
 	var srv *llmnr.Server
@@ -260,7 +266,11 @@ func runLLMNR(w *rt.World, res *hx.Result, realServer, realClient bool) *hx.Viol
 			handlers = []llmnr.Handler{respond, canary}
 		}
 		var err error
-		srv, err = llmnr.NewIPv4ServerWithHandlers(handlers)
+		if v6 {
+			srv, err = llmnr.NewIPv6ServerWithHandlers(handlers)
+		} else {
+			srv, err = llmnr.NewIPv4ServerWithHandlers(handlers)
+		}
 		if err != nil {
 			return &hx.Violation{Class: "start_failed", Key: sysName, Msg: err.Error()}
 		}
@@ -360,6 +370,12 @@ func runLLMNR(w *rt.World, res *hx.Result, realServer, realClient bool) *hx.Viol
 		if cl == nil {
 			return &hx.Violation{Class: "start_failed", Key: sysName, Msg: "NewClient failed"}
 		}
+		switch timeoutKnob {
+		case 1:
+			cl.Timeout = 300 * time.Millisecond
+		case 2:
+			cl.Timeout = 5 * time.Second
+		}
 		n := 0
 		for c := 0; c < nClients; c++ {
 			for q := 0; q < clN[c] && n < 8; q++ {
@@ -398,7 +414,7 @@ func runLLMNR(w *rt.World, res *hx.Result, realServer, realClient bool) *hx.Viol
 			}
 			rc.poison = realServer && chain == 3 && c == 0
 			raws = append(raws, rc)
-			tasks = append(tasks, rt.GoHarness(fmt.Sprintf("raw-client%d", c), rc.host, func() { llRaw(rc) }))
+			tasks = append(tasks, rt.GoHarness(fmt.Sprintf("raw-client%d", c), rc.host, func() { llRaw(rc, group) }))
 		}
 	}
 
@@ -680,7 +696,7 @@ func runLLMNR(w *rt.World, res *hx.Result, realServer, realClient bool) *hx.Viol
 	return nil
 }
 
-func llRaw(rc *llRawClient) {
+func llRaw(rc *llRawClient, groupAddr *net.UDPAddr) {
 	c, err := simnet.ListenUDP("udp4", &net.UDPAddr{})
 	if err != nil {
 		return
